@@ -16,7 +16,7 @@ class Chain:
 
     def __init__(self, source, connectors, sink, split=False, defined=False, multifile=False):
         self.source, self.connectors, self.sink, self.split, self.defined, self.multifile = source, list(connectors), sink, split, defined, multifile
-        self.name = "%s__%s__%s%s%s%s" % (source, "_".join(connectors) or "none", sink, "@split" if split else "", "@def" if defined else "", "@mf" if multifile else "")
+        self.name = "%s__%s__%s%s%s%s" % (source, "_".join(connectors) or "none", sink, "@split" if split else "", ("@defx" if defined == "external_value" else "@def") if defined else "", "@mf" if multifile else "")
 
     def files(self):
         """single-file layout: {p.py}; multi-file layout: the classes and helper functions live in lib.py and are imported by name"""
@@ -126,7 +126,10 @@ class Chain:
             top += ["def use(a):", "    sink(a)", ""]
             body += ["use(%s)" % cur, "sink(clean)"]
         head = "def handler(p_src):" if self.source == "param" else "def handler(p_x):"
-        if self.defined:
+        if self.defined == "external_value":
+            # the program's own source returns what external code gives it (a fresh unknown value per call), its sink does nothing
+            top = ["def source():", "    return input()", "", "def sink(p):", "    pass", ""] + top
+        elif self.defined:
             # source and sink are functions of the analysed program (the rules still go by their names)
             top = ["def source():", "    return \"data\"", "", "def sink(p):", "    return 0", ""] + top
         if self.source == "this_path":
@@ -225,7 +228,8 @@ def universe(tier, seed):
                                                                       ("call_return", "field"), ("alias_field", "call_return")] for k in SINKS]
     mf += [Chain(s, c, k, defined=True, multifile=True) for s in SOURCES for c in [(), ("call_return",)] for k in SINKS]
     meth = [Chain(s, c, k) for s in METHOD_SOURCES for c in [(), ("assign",), ("field",), ("call_return",), ("binop", "assign")] for k in SINKS]
-    one = one + defd + meth + mf
+    defx = [Chain(s, c, k, defined="external_value") for s in SOURCES for c in [(), ("assign",), ("reassign_source",), ("reassign_source", "assign"), ("call_return",)] for k in SINKS]
+    one = one + defd + defx + meth + mf
     if tier == "thorough":
         return one + split + two
     return one + split + random.Random(seed).sample(two, 60)
